@@ -96,7 +96,7 @@ def _worker(args):
                         break
             if hit:
                 out["known_hits"][hit] = out["known_hits"].get(hit, 0) + 1
-            elif len(out["failures"]) < 3:
+            elif len(out["failures"]) < 8:
                 v = dict(res["violation"])
                 fp = v.pop("concrete_plan", None) or p
                 out["failures"].append({"index": i, "seed": seed, "plan": fp, "violation": v})
@@ -314,33 +314,47 @@ def main(mod, argv=None):
     # 4. minimise + confirm failures --------------------------------------------------------
     by_sig = {}
     for f in sorted(agg["failures"], key=lambda f: f["index"]):
-        by_sig.setdefault(f["violation"]["invariant"], f)
-    for sig, f in sorted(by_sig.items()):
-        try:
-            small = _minimise_in_child(modname, f["plan"], sig, mod.SHRINK_BUDGET if hasattr(mod, "SHRINK_BUDGET") else 400)
-        except Exception:
-            small = f["plan"]
-            print("NOTE: minimisation failed, reporting the unminimised plan\n" + traceback.format_exc(limit=3))
-        path = os.path.join(REPLAYS, "%s-%s-%s.json" % (mod.PROP, sig, f["seed"]))
-        small = dict(small)
-        small["_found"] = {"seed": f["seed"], "index": f["index"], "tier": a.tier, "verif_seed": base,
-                           "invariant": sig}
-        planmod.save(small, path)
-        code, sig2, outp = _run_one_fresh(mod.PROP, path, repo=os.environ.get("CURTSIES_REPO"))
-        if code == 1 and sig2 == sig:
-            res = mod.run_plan(planmod.load(path))
-            f = dict(f)
-            f["violation"] = res.get("violation") or f["violation"]
-            violations.append((path, f))
-        else:
+        by_sig.setdefault(f["violation"]["invariant"], []).append(f)
+    for sig, flist in sorted(by_sig.items()):
+        confirmed = False
+        last_out = ""
+        # a failure that does not replay in a fresh interpreter (e.g. state that leaked from an earlier run
+        # of the same worker process) is not reported; the next failures with the same signature are tried
+        for f in flist[:6]:
+            try:
+                small = _minimise_in_child(modname, f["plan"], sig, mod.SHRINK_BUDGET if hasattr(mod, "SHRINK_BUDGET") else 400)
+            except Exception:
+                small = f["plan"]
+                print("NOTE: minimisation failed, reporting the unminimised plan\n" + traceback.format_exc(limit=3))
+            path = os.path.join(REPLAYS, "%s-%s-%s.json" % (mod.PROP, sig, f["seed"]))
+            small = dict(small)
+            small["_found"] = {"seed": f["seed"], "index": f["index"], "tier": a.tier, "verif_seed": base,
+                               "invariant": sig}
+            planmod.save(small, path)
+            code, sig2, outp = _run_one_fresh(mod.PROP, path, repo=os.environ.get("CURTSIES_REPO"))
+            if code == 1 and sig2 == sig:
+                res = mod.run_plan(planmod.load(path))
+                f = dict(f)
+                f["violation"] = res.get("violation") or f["violation"]
+                violations.append((path, f))
+                confirmed = True
+                break
             # the minimised plan does not replay: fall back to the original plan
             planmod.save(dict(f["plan"], _found=small["_found"]), path)
             code, sig2, outp = _run_one_fresh(mod.PROP, path, repo=os.environ.get("CURTSIES_REPO"))
             if code == 1 and sig2 == sig:
                 violations.append((path, f))
-            else:
-                harness_errors.append("violation %s (seed %s) does not replay in a fresh interpreter:\n%s"
-                                      % (sig, f["seed"], outp[-1500:]))
+                confirmed = True
+                break
+            last_out = outp
+            try:
+                os.remove(path)
+            except OSError:
+                pass
+        if not confirmed:
+            harness_errors.append("violation %s (seeds %s) does not replay in a fresh interpreter "
+                                  "(state leaking between runs of one process?):\n%s"
+                                  % (sig, [f["seed"] for f in flist[:6]], last_out[-1200:]))
 
     for e in known:
         if e["status"] == "known" and agg["known_hits"].get(e["id"]):
